@@ -398,6 +398,20 @@ func renderRefPt(f *fmtG, p ref.Pt) string {
 // parse is the reference parser of one item at b[off:]. ok=false: the format says the decoder must
 // fail (why names the first reason).
 func (s *sctx) parse(kind string, b []byte, off int, sub bool) (txt string, end int, ok bool, why string) {
+	return s.parseX(kind, b, off, sub, nil, -1)
+}
+
+// pinRec records a point that the pinned parse accepted on behalf of a listed known finding.
+type pinRec struct {
+	idx    int // element index in the enclosing slice, -1 for a single point
+	off, n int
+	raw    bool
+	kf     string
+}
+
+// parseX is parse; with pins != nil, points rejected for a reason that falls in a listed known finding
+// are taken as accepted with exactly their pinned value (see fmtG.pinned) and recorded in *pins.
+func (s *sctx) parseX(kind string, b []byte, off int, sub bool, pins *[]pinRec, idx int) (txt string, end int, ok bool, why string) {
 	if strings.HasPrefix(kind, "[]") {
 		if len(b)-off < 4 {
 			return "", off, false, "truncated_prefix"
@@ -407,7 +421,7 @@ func (s *sctx) parse(kind string, b []byte, off int, sub bool) (txt string, end 
 		var sb strings.Builder
 		sb.WriteByte('[')
 		for i := 0; i < n; i++ {
-			t, e, k, w := s.parse(kind[2:], b, off, sub)
+			t, e, k, w := s.parseX(kind[2:], b, off, sub, pins, i)
 			if !k {
 				return "", e, false, w
 			}
@@ -453,6 +467,12 @@ func (s *sctx) parse(kind string, b []byte, off int, sub bool) (txt string, end 
 		return "", off, false, "truncated_point"
 	}
 	v := f.decodeCached(rest[:need], sub)
+	if !v.ok && pins != nil {
+		if pv, kf := f.pinned(rest[:need], v, sub); kf != "" {
+			*pins = append(*pins, pinRec{idx: idx, off: off, n: pv.n, raw: pv.raw, kf: kf})
+			return renderRefPt(f, pv.pt), off + pv.n, true, "pt:" + pv.why
+		}
+	}
 	if !v.ok {
 		return "", off, false, "pt:" + v.why
 	}
@@ -989,10 +1009,7 @@ func propStream(t *rapid.T, s *sctx, focus string) {
 	for i := range presize {
 		presize[i] = rapid.IntRange(0, 3).Draw(t, fmt.Sprintf("presize%d", i)) == 0
 	}
-	if kf := s.checkDecode(t, test, script, b, nosub, rd, rk, presize, &cls); kf != "" {
-		rep.Excluded(test, "C07", kf)
-		return
-	}
+	s.checkDecode(t, test, script, b, nosub, rd, rk, presize, &cls)
 	nontrivial := true // every stream here has a slice/nested value, a mutation, a short-read reader or an option, or is a mixed sequence
 	if k == 1 && !strings.HasPrefix(script[0], "[]") && rk == "whole" && !nosub && contains(cls, "mut:none") {
 		nontrivial = false
@@ -1002,27 +1019,25 @@ func propStream(t *rapid.T, s *sctx, focus string) {
 
 // checkDecode decodes b with the type script and compares every call with the reference parser:
 // error iff the format says so, equal values, BytesRead = bytes the reader delivered (= end offset of
-// the item on success). It returns the key of a known finding when the first format error of the
-// stream falls in a listed known class (the case is then excluded), "" otherwise.
-func (s *sctx) checkDecode(t fataler, test string, script []string, b []byte, nosub bool, rd io.Reader, rk string, presize []bool, cls *[]string) string {
-	// decide first, with the oracle only, whether the stream falls in a known class
+// the item on success). An item the format rejects only because of points in a listed known finding
+// (F5, F41) may either fail (correct) or decode to exactly the pinned value with exact counters and
+// re-encoding; decoding then continues behind it.
+func (s *sctx) checkDecode(t fataler, test string, script []string, b []byte, nosub bool, rd io.Reader, rk string, presize []bool, cls *[]string) {
 	off := 0
-	for _, kd := range script {
-		_, end, ok, why := s.parse(kd, b, off, !nosub)
-		if !ok {
-			if kf := knownClass(s.g, kd, why, !nosub); kf != "" && rep.Known("C07", kf) {
-				return kf
-			}
-			break
-		}
-		off = end
-	}
 	cr := &countR{r: rd}
 	dec := s.newDecoder(cr, nosub)
 	off = 0
 	failedAt := -1
 	for i, kd := range script {
 		txt, end, ok, why := s.parse(kd, b, off, !nosub)
+		var pins []pinRec
+		pinnedOK := false
+		ptxt, pend := "", 0
+		if !ok && knownClass(s.g, kd, why, !nosub) != "" {
+			var pk bool
+			ptxt, pend, pk, _ = s.parseX(kd, b, off, !nosub, &pins, -1)
+			pinnedOK = pk && len(pins) > 0
+		}
 		dst := reflect.New(s.goType(kd))
 		if presize != nil && presize[i] && dst.Elem().Kind() == reflect.Slice && ok {
 			// decode into an existing slice of the announced length holding other data
@@ -1049,6 +1064,27 @@ func (s *sctx) checkDecode(t fataler, test string, script []string, b []byte, no
 			off = end
 			continue
 		}
+		if err == nil && pinnedOK {
+			// tolerated deviation of a listed known finding: exactly the pinned value, nothing else
+			if g := s.render(dst.Elem()); g != ptxt {
+				t.Fatalf("%s: Decode(item %d, %s) accepted a string of known-finding class %s but the value is not the pinned one\n got  %s\n want %s\n stream %x offset %d", s.curve, i, kd, pins[0].kf, g, ptxt, b, off)
+			}
+			if br != int64(pend) || cr.n != int64(pend) {
+				t.Fatalf("%s: after Decode(item %d, %s) [known-finding class %s]: BytesRead=%d, reader delivered %d, format says %d\n stream %x", s.curve, i, kd, pins[0].kf, br, cr.n, pend, b)
+			}
+			for _, pr := range pins {
+				el := dst.Interface()
+				if pr.idx >= 0 {
+					el = dst.Elem().Index(pr.idx).Addr().Interface()
+				}
+				if re := libBytes(el, pr.raw); !bytes.Equal(re, b[pr.off:pr.off+pr.n]) {
+					t.Fatalf("%s: Decode(item %d, %s) [known-finding class %s]: element re-encodes to %x, input was %x", s.curve, i, kd, pr.kf, re, b[pr.off:pr.off+pr.n])
+				}
+				*cls = append(*cls, "known_class:"+pr.kf+":accepted_as_pinned")
+			}
+			off = pend
+			continue
+		}
 		if err == nil {
 			t.Fatalf("%s: Decode(item %d, %s) returned nil error, the format says it must fail (%s); decoded %s\n stream %x offset %d nosub=%v reader=%s",
 				s.curve, i, kd, why, s.render(dst.Elem()), b, off, nosub, rk)
@@ -1057,6 +1093,9 @@ func (s *sctx) checkDecode(t fataler, test string, script []string, b []byte, no
 			t.Fatalf("%s: after failing Decode(item %d, %s, %s): BytesRead=%d but the reader delivered %d bytes\n stream %x", s.curve, i, kd, why, br, cr.n, b)
 		}
 		*cls = append(*cls, "err:"+why, fmt.Sprintf("err_at_item:%d", i))
+		if pinnedOK {
+			*cls = append(*cls, "known_class:"+pins[0].kf+":rejected")
+		}
 		failedAt = i
 		break
 	}
@@ -1067,7 +1106,6 @@ func (s *sctx) checkDecode(t fataler, test string, script []string, b []byte, no
 		}
 		*cls = append(*cls, "eof_probe")
 	}
-	return ""
 }
 
 func contains(xs []string, x string) bool {
